@@ -114,6 +114,7 @@ type JobResult struct {
 	Terms        int
 	Wall         float64
 	Samples      []map[string]interface{}
+	Skipped      int // obligations not searched after three counterexamples for the same assertion
 }
 
 var solverBin = envOr("VERIF_SOLVER", "z3-new")
@@ -291,6 +292,18 @@ func dischargeState(ex *sym.Exec, solver *smt.Solver, f *sym.State, job *Job, re
 	}
 	sort.Strings(order)
 	for _, id := range order {
+		// once a job has three counterexamples for an assertion the
+		// remaining paths are not searched for more of the same
+		nv := 0
+		for _, v := range res.Violations {
+			if v.ID == id {
+				nv++
+			}
+		}
+		if nv >= 3 {
+			res.Skipped++
+			continue
+		}
 		obs := groups[id]
 		var conds []*smt.Term
 		for _, o := range obs {
@@ -307,7 +320,20 @@ func dischargeState(ex *sym.Exec, solver *smt.Solver, f *sym.State, job *Job, re
 			// arithmetic function: decide again with the functions pinned to
 			// the operations they stand for
 			if ref := st.RefineUF(cond); len(ref) > 0 {
+				model0 := model
+				save := solver.TimeoutMs
+				if save > 30000 {
+					solver.SetTimeout(30000)
+				}
 				r, model = solver.Check(append([]*smt.Term{cond}, ref...), inputTerms(f))
+				solver.SetTimeout(save)
+				if r == smt.Unknown {
+					// exact arithmetic does not finish: let the native replay
+					// decide whether the abstract model's inputs are a real
+					// counterexample (a model that does not reproduce makes the
+					// run inconclusive, never a pass)
+					r, model = smt.Sat, model0
+				}
 			}
 		}
 		switch r {
@@ -544,6 +570,9 @@ func confirms(v *Violation, nr *NativeResult) (bool, string) {
 	case "unwind", "hang":
 		if nr.Timeout {
 			return true, "native run exceeded its time budget"
+		}
+		if nr.Leaked > 0 {
+			return true, fmt.Sprintf("%d goroutine(s) still running or parked after the native run returned", nr.Leaked)
 		}
 		return false, "native run terminated"
 	case "leak":
